@@ -14,6 +14,7 @@ import LekkerVerif.Properties.C09
 import LekkerVerif.Properties.C10
 import LekkerVerif.Properties.C11
 import LekkerVerif.Properties.C11Hier
+import LekkerVerif.Properties.C11Params
 import LekkerVerif.Properties.C12
 import LekkerVerif.Properties.C13
 import LekkerVerif.Properties.C14
